@@ -155,7 +155,7 @@ def replay_graph(rep, budget, bundle=None, maxpay=1, optset="OptCore"):
     mids = framer_engine.defined_mids(bundle) if bundle else [1005]
     dump = os.path.join(common.scratch(), f"framer-graph-{budget}")
     cfg = framer_engine.MC_CFG % dict(mode="bytes", maxpay=maxpay, budget=budget, mids=", ".join(map(str, mids)),
-                                      damage="FALSE", optset=optset, live="")
+                                      damage="FALSE", optset=optset, live="", hraise="FALSE")
     res = tlc.run("MC_Framer", cfg, workers=1, heap="2g", extra=["-dump", "dot,actionlabels", dump], timeout=3000)
     tlc.must_ok(res, "MC_Framer graph dump")
     rep.add_tlc(res)
